@@ -298,6 +298,13 @@ def corpus() -> typing.List[dict]:
         'Un.1.0.dsdl': '@union\nregr.Empty.1.0 e\nfloat64 f\nuint8[<=4] v\nbool b\n@sealed\n',
         'UnExt.1.0.dsdl': '@union\nfloat32 a\nfloat64 b\n@extent 64 * 8\n',
         'SvcUn.1.0.dsdl': '@union\nfloat32 a\nfloat64 b\n@sealed\n---\nfloat32 c\n@sealed\n',
+        # bool arrays in every position (struct, union, service halves, delimited): exercised under every language option
+        'BoolStruct.1.0.dsdl': 'bool[<=12] bits\nbool[5] fixed\nuint8[<=3] bytes\nregr.nested.Mid.1.0[<=2] inner\n@sealed\n',
+        'BoolUnion.1.0.dsdl': '@union\nbool[<=9] bits\nbool[3] fixed\nint16[<=4] ints\nregr.Empty.1.0 one\n@sealed\n',
+        'BoolSvc.1.0.dsdl': 'bool[<=7] req_bits\n@sealed\n---\n@union\nbool[<=70] resp_bits\nbool[2] f\n@extent 64 * 8\n',
+        'BoolSvcEmpty.1.0.dsdl': '@sealed\n---\nbool[<=8] bits\nuint8 x\n@extent 32 * 8\n',
+        'BoolDelim.1.0.dsdl': 'bool[<=4] a\nuint8 b\n@extent 32 * 8\n',
+        'IntOnly.1.0.dsdl': 'int32[<=3] a\nuint64 b\nint7 c\nregr.BoolDelim.1.0[<=2] d\n@sealed\n',
         'Old.1.0.dsdl': '@deprecated\nuint8 x\n@sealed\n',
         'Older.1.0.dsdl': '@deprecated\nregr.Old.1.0 o\n@sealed\n',
         '300.Svc.1.0.dsdl': 'uint8 a\n@sealed\n---\nregr.Un.1.0 u\n@extent 1024 * 8\n',
